@@ -186,7 +186,70 @@ def st_dist(rs):
         d["short_write"] += any(x.startswith("n") for x in o)
     return d
 
+def _pool_ops(r):
+    return [o.strip() for o in r["input"].split(";")[1:]]
+
+def pool_nontrivial(r):
+    ops = _pool_ops(r)
+    mark = ops.index("mark") if "mark" in ops else len(ops)
+    pre = ops[:mark]
+    issued = [o for o in pre if o.startswith("i ")]
+    return len(issued) >= 2 and any(o.startswith(("f ", "c ")) for o in pre)
+
+def pool_dist(rs):
+    d = {"cases": 0, "h2_requests": 0, "multi_origin": 0, "with_cancel": 0, "with_dial_failure": 0, "timed_idle": 0,
+         "max_idle_small": 0, "cap_off": 0, "ops_total": 0, "noop_ops": 0, "got": 0, "got_reused": 0, "err_unavailable": 0,
+         "err_connect": 0, "err_handshake": 0, "woken_polls": 0, "conn_close_ops": 0}
+    for r in rs:
+        ops = _pool_ops(r)
+        cfg = r["input"].split(";")[0].split()
+        d["cases"] += 1
+        iss = [o.split() for o in ops if o.startswith("i ")]
+        d["h2_requests"] += sum(1 for o in iss if o[3] == "1")
+        d["multi_origin"] += len(set(o[2] for o in iss if int(o[1]) < 100)) > 1
+        d["with_cancel"] += any(o.startswith("c ") for o in ops)
+        d["with_dial_failure"] += any(o.endswith((" fc", " fh")) for o in ops[:ops.index("mark")] if True) if "mark" in ops else 0
+        d["timed_idle"] += cfg[1] == "50"
+        d["max_idle_small"] += cfg[2] in ("0", "1", "2")
+        d["cap_off"] += cfg[3] == "0"
+        d["conn_close_ops"] += sum(1 for o in ops if o.startswith("cc "))
+        obs = [o.split()[0] for o in r["obs"].split(";") if o.strip()]
+        d["ops_total"] += len(obs)
+        for o in obs:
+            d["noop_ops"] += o.startswith("N")
+            d["got"] += o.startswith("G")
+            d["got_reused"] += o.startswith("G") and o.split(".")[1] == "1"
+            d["err_unavailable"] += o.startswith("E0")
+            d["err_connect"] += o.startswith("E1")
+            d["err_handshake"] += o.startswith("E2")
+            d["woken_polls"] += o.endswith("w")
+    return d
+
+POOL_STREAM = {"name": "pool", "quick": 3000, "thorough": 200000, "sep": ";", "batch": 4000,
+               "nontrivial": pool_nontrivial, "distribution": pool_dist}
+POOL_RULE = ("random schedules (6-34 ops + drain/probe phase) of issue / poll / cancel / dial ok|ok+ALPN-h2|fail-connect|fail-handshake / "
+             "finish / connection-ready / connection-close / run-tasks / real-time tick over 1-3 origins (differing in scheme, port, "
+             "host, letter case), HTTP/1.1 and HTTP/2 mixed, max_idle in {0,1,2,3,32}, both continue_after_preemption settings, idle "
+             "timeout none/0/50ms/long, through the public ConnectionPoolService with scripted Transport/Protocol/Connection; after "
+             "every op the result, the pool snapshot (marker set, waiter queues, idle lists), dial and drop counters are compared with "
+             "the model and the monitors run. non-trivial = >=2 requests and at least one release or cancel before the drain phase")
+POOL_ASSUMES = ["tokio oneshot semantics (5-state model) and FIFO task scheduling of the current-thread runtime",
+                "one op = one poll/drop executed atomically (every PoolInner access is under its mutex)",
+                "hyper's is_ready/poll_ready abstracted as open && !busy; an upgraded connection is one that never becomes ready again",
+                "idle expiry uses the real clock: timed cases use 50 ms timeouts with 5/150 ms sleeps (guard band)"]
+
+def pool_prop(mod, prefixes, theorems):
+    return {"props_module": mod, "class_prefix": prefixes, "theorems": theorems, "streams": [POOL_STREAM],
+            "rule": POOL_RULE, "assumes": POOL_ASSUMES}
+
 PROPS = {
+    "C02": pool_prop("HdModel.Props.C02", ["C02/"], ["Hd.Pool.step"]),
+    "C03": pool_prop("HdModel.Props.C03", ["C03/"], ["Hd.Pool.step"]),
+    "C04": pool_prop("HdModel.Props.C04", ["C04/"], ["Hd.Pool.step"]),
+    "C05": pool_prop("HdModel.Props.C05", ["C05/"], ["Hd.Pool.step"]),
+    "C06": pool_prop("HdModel.Props.C06", ["C06/"], ["Hd.Pool.step"]),
+    "C14": pool_prop("HdModel.Props.C14", ["C14/"], ["Hd.Pool.step"]),
+    "C15": pool_prop("HdModel.Props.C15", ["C15/"], ["Hd.Pool.step"]),
     "C18": {
         "props_module": "HdModel.Props.C18",
         "class_prefix": ["C18/", "C08/bytes-altered"],
